@@ -63,7 +63,7 @@ let kont_label s k = match k with
   | KGatherCb _ -> "Gc"
   | KPruneFin t -> "Pf" ^ sn t
   | KAcqDead t -> "Ac" ^ sn t
-  | KAcqWakeC (t, _) -> "Ac" ^ sn t
+  | KAcqWakeC (t, _, _) -> "Ac" ^ sn t
 let out_label o = match o with
   | OConnect (cid, d) -> "conn" ^ sn cid ^ ":" ^ sdb d
   | ODisconnect (did, c) -> "disc" ^ sn did ^ ":" ^ sn c
